@@ -8,6 +8,11 @@ Structural clauses decided, for the prox sites of Moreau, Rattle (stage 1 and 2)
                   (Moreau, Rattle.prox2, DualStormerVerlet) with the Newton-restituted gap rate xi_N / xi_F (e_N, e_F enter)
  R3 active set    velocity-level normal percussions are restricted to closed contacts (active-set mask I_N / np.where /
                   column slicing by I_N), so percussions vanish for contacts that are not closed
+ R5 NF link       compute_I_F (local connectivity of the active set, used by Moreau and the consistent initial conditions):
+                  the local normal index handed out with a friction law is the POSITION of that law's global normal index
+                  inside the active set I_N (a search of contr.la_NDOF[i_N] in I_N), because the local percussion vector is
+                  ordered like I_N, which also contains frictionless contacts; the local friction indices are a running counter
+                  that advances exactly where I_F is extended, by the length of what is appended
  R4 write-back    each site writes the projected normal and friction forces into the slots it read them from
 """
 from __future__ import annotations
@@ -39,6 +44,8 @@ def run(ctx):
     rep.rule("C18.R2", "position- vs velocity-level kinematic quantity", 5)
     rep.rule("C18.R4", "one scalar prox parameter per vector-valued friction law (Coulomb direction)", 4)
     rep.rule("C18.R3", "active-set restriction of velocity-level normal percussions", 3)
+    rep.rule("C18.R5", "local normal/friction connectivity of the active set (index typing in compute_I_F)", 4)
+    nf_link(ctx)
     for rel, cname, q, level in SITES:
         cls = ctx.repo.get(rel, cname)
         fn = ctx.repo.get(rel, q)
@@ -129,6 +136,110 @@ MO = "cardillo/solver/moreau.py"
 RT = "cardillo/solver/rattle.py"
 BE = "cardillo/solver/backward_euler.py"
 DSV = "cardillo/solver/dual_stormer_verlet.py"
+SEARCHES = ("np.where", "np.flatnonzero", "np.nonzero", "np.argwhere", "np.searchsorted")
+
+
+def nf_link(ctx):
+    from ..cfg import CFG
+    from ..dataflow import ReachingDefs
+    rep = ctx.rep
+    rel = "cardillo/solver/_base.py"
+    fn = ctx.repo.get(rel, "compute_I_F")
+    C = f"{rel}:compute_I_F"
+    cfg = CFG(fn)
+    rd = ReachingDefs(cfg)
+    params = [a.arg for a in fn.args.args]
+    if not params:
+        raise AnalysisError(f"{C}: no parameters")
+    active = params[0]  # I_N
+
+    def single_def(node, name):
+        ds = [d for d in rd.defs_reaching(node, name) if d is not cfg.entry]
+        vals = [d.ast.value for d in ds if isinstance(d.ast, ast.Assign) and len(d.ast.targets) == 1
+                and isinstance(d.ast.targets[0], ast.Name) and d.ast.targets[0].id == name]
+        return (ds, vals)
+
+    apps = [n for n in cfg.nodes if n.kind == "stmt" and isinstance(n.ast, ast.Expr) and isinstance(n.ast.value, ast.Call)
+            and isinstance(n.ast.value.func, ast.Attribute) and n.ast.value.func.attr == "append"
+            and isinstance(n.ast.value.args[0], ast.Tuple) and len(n.ast.value.args[0].elts) == 3]
+    if len(apps) < 2:
+        raise AnalysisError(f"{C}: the appends of (i_N_local, i_F_local, reservoir) were not found")
+    ext = [n for n in cfg.nodes if n.kind == "stmt" and isinstance(n.ast, ast.Expr) and isinstance(n.ast.value, ast.Call)
+           and isinstance(n.ast.value.func, ast.Attribute) and n.ast.value.func.attr == "extend"]
+    for ap in apps:
+        iN, iF, _ = ap.ast.value.args[0].elts
+        # ---- normal link
+        if isinstance(iN, (ast.List, ast.Tuple)) and not iN.elts:
+            rep.ok("C18.R5", C, f"{norm_src(ap.ast)[:70]}: no normal force dependence (constant reservoir)", trivial=True)
+        elif isinstance(iN, ast.Name):
+            ds, vals = single_def(ap, iN.id)
+            okk = False
+            why = "it has no single definition the analysis can read"
+            if len(ds) == 1 and len(vals) == 1:
+                v = vals[0]
+                call = v.value if isinstance(v, ast.Subscript) else v
+                names = {x.id for x in ast.walk(v) if isinstance(x, ast.Name)}
+                if isinstance(call, ast.Call) and dotted(call.func) in SEARCHES and active in names:
+                    # the searched value is the law's global normal index
+                    others = names - {active, "np"}
+                    glob_ok = False
+                    for o in others:
+                        _, ov = single_def(ds[0], o)
+                        if len(ov) == 1 and "la_NDOF" in norm_src(ov[0]):
+                            glob_ok = True
+                    okk = glob_ok
+                    why = "the searched value is not the contribution's global normal index contr.la_NDOF[i_N]"
+                else:
+                    why = (f"`{norm_src(v)}` is not a search of the global normal index in the active set `{active}` "
+                           "(a running counter only counts contacts that own a friction law, but the local percussion vector is ordered like the active set, "
+                           "which also holds frictionless contacts)")
+            if okk:
+                rep.ok("C18.R5", C, f"{iN.id} = {norm_src(vals[0])}: position of the law's global normal index in the active set")
+            else:
+                rep.bad("C18.R5", C, ds[0].ast if ds else ap.ast, f"the local normal index `{iN.id}` paired with a friction law is wrong in general: {why}; "
+                        "the friction reservoir would be scaled by another contact's normal percussion", f"{rel}:{(ds[0] if ds else ap).lineno}")
+        else:
+            rep.bad("C18.R5", C, ap.ast, "local normal index of a friction law is neither empty nor a named search result", f"{rel}:{ap.lineno}")
+        # ---- friction indices: arange(n) + counter, counter advanced with the extension of I_F
+        okf = False
+        if isinstance(iF, ast.Name):
+            ds, vals = single_def(ap, iF.id)
+            if len(vals) == 1 and isinstance(vals[0], ast.BinOp) and isinstance(vals[0].op, ast.Add):
+                parts = [vals[0].left, vals[0].right]
+                ar = [x for x in parts if isinstance(x, ast.Call) and dotted(x.func) == "np.arange" and len(x.args) == 1]
+                ct = [x for x in parts if isinstance(x, ast.Name)]
+                if len(ar) == 1 and len(ct) == 1:
+                    n_name, ctr = norm_src(ar[0].args[0]), ct[0].id
+                    incs = [n for n in cfg.nodes if n.kind == "stmt" and isinstance(n.ast, ast.AugAssign) and norm_src(n.ast.target) == ctr]
+                    good = bool(incs) and all(isinstance(i.ast.op, ast.Add) and norm_src(i.ast.value) == n_name for i in incs)
+                    # every increment shares its block with exactly one extend, and vice versa
+                    def block(n):
+                        return id(getattr(n.ast, "_parent", None)), tuple(id(x) for x in getattr(getattr(n.ast, "_parent", None), "body", []) if x is n.ast) != ()
+                    blocks_inc = sorted(id(_block_of(i.ast)) for i in incs)
+                    blocks_ext = sorted(id(_block_of(e.ast)) for e in ext)
+                    blocks_app = sorted(id(_block_of(a.ast)) for a in apps)
+                    good = good and blocks_inc == blocks_ext == blocks_app
+                    # n = len(i_F) and the extension appends the global indices of i_F
+                    _, nv = single_def(ap, n_name) if n_name.isidentifier() else ([], [])
+                    good = good and len(nv) == 1 and isinstance(nv[0], ast.Call) and dotted(nv[0].func) == "len"
+                    okf = good
+        if okf:
+            rep.ok("C18.R5", C, f"{iF.id} = {norm_src(vals[0])}: counter advanced by {n_name} exactly where I_F is extended")
+        else:
+            rep.bad("C18.R5", C, ap.ast, "the local friction indices are not `np.arange(n_F) + counter` with the counter advanced by n_F in exactly the blocks that extend I_F: "
+                    "friction laws would read the slip velocity / percussion of another law", f"{rel}:{ap.lineno}")
+
+
+def _block_of(stmt):
+    """the statement list (identified by its owner and field) a statement sits in"""
+    par = getattr(stmt, "_parent", None)
+    for fld in ("body", "orelse", "finalbody"):
+        lst = getattr(par, fld, None)
+        if isinstance(lst, list) and any(x is stmt for x in lst):
+            return lst
+    return par
+
+
 MUTANTS = [
     dict(id="c18-m1", canary=True, what="Moreau: Signorini update without the minus sign", file=MO,
          old="        P_N = -NegativeOrthant.prox(self.prox_r_N * xi_N - P_N)", new="        P_N = NegativeOrthant.prox(self.prox_r_N * xi_N - P_N)", expect="C18.R1"),
@@ -158,6 +269,19 @@ MUTANTS += [
     dict(id="c18-r4-3", what="DualStormerVerlet: per-component prox parameters (original defect)", file=DSV,
          old="                            min(prox_r_F_contr[i_F]) * gamma_F_contr[i_F]", new="                            prox_r_F_contr[i_F] * gamma_F_contr[i_F]", expect="C18.R4"),
 ]
+CB = "cardillo/solver/_base.py"
+MUTANTS += [
+    dict(id="c18-r5-seed", canary=True, what="[seeded by sub-agent] compute_I_F: local normal index from a running counter over friction-owning contacts", file=CB,
+         edits=[(CB, "    nla_F_local = 0\n    for contr in system.get_contribution_list(\"gamma_F\"):", "    nla_N_local = 0\n    nla_F_local = 0\n    for contr in system.get_contribution_list(\"gamma_F\"):"),
+                (CB, "                    i_N_local = np.where(i_N_global == I_N)[0]\n", "                    i_N_local = np.arange(1) + nla_N_local\n                    nla_N_local += 1\n")],
+         expect="C18.R5"),
+    dict(id="c18-r5-2", what="compute_I_F: friction counter not advanced for constant-reservoir laws", file=CB,
+         old="            else:  # no normal force dependence\n                nla_F_local += n_F\n", new="            else:  # no normal force dependence\n", expect="C18.R5"),
+    dict(id="c18-r5-3", what="compute_I_F: the global normal index itself is handed out as local index", file=CB,
+         old="                    i_N_local = np.where(i_N_global == I_N)[0]\n", new="                    i_N_local = np.array([i_N_global])\n", expect="C18.R5"),
+]
 NEUTRAL = [
+    dict(id="c18-n-r5", what="compute_I_F: np.flatnonzero instead of np.where(...)[0]", file=CB,
+         old="                    i_N_local = np.where(i_N_global == I_N)[0]\n", new="                    i_N_local = np.flatnonzero(I_N == i_N_global)\n"),
     dict(id="c18-n-r4", canary=True, what="Moreau: scalar parameter through np.min and a local", file=MO,
          old="                min(self.prox_r_F[i_F]) * xi_F[i_F] - P_F[i_F],", new="                np.min(self.prox_r_F[i_F]) * xi_F[i_F] - P_F[i_F],"),]
